@@ -141,6 +141,12 @@ static const char *const T_C05[] = {
 	"W0 S1>0 | a1 | s1",
 	"S0 | A0 | a0",
 	"C0 | 30 | b0",
+	// repeated synchronous submissions from one frame (the waiter's thread event lives at the same stack address each time):
+	// a late wake-up meant for submission k must not release the waiter of submission k+1
+	"S0 | a0 a0 | s0 s0",
+	"S0 | a0 a0 | s0 B0",
+	"S0 | a0 a0 | w0 s0",
+	"S0 | a0 a0 a0 | s0 s0 s0",
 	0
 };
 QP_HARNESS(h_q05, "q05", "C05", T_C05, 0);
